@@ -15,16 +15,34 @@ ToSet(seq) == {seq[i] : i \in 1..Len(seq)}
 Has(e, k) == k \in DOMAIN e
 MkK(j) == [n |-> j.n, R |-> {<<p[1], p[2]>> : p \in ToSet(j.R)}, L |-> [s \in 0..(j.n-1) |-> ToSet(j.L[s+1])]]
 ResOf(e) == [r \in {x \in 1..40 : ToString(x) \in DOMAIN e.proj.res} |-> ToSet(e.proj.res[ToString(r)])]
-Empty == [pk |-> <<>>, pf |-> <<>>, res |-> <<>>, memo |-> <<>>, p0 |-> <<>>]
+Empty == [pk |-> <<>>, pf |-> <<>>, res |-> <<>>, memo |-> <<>>, p0 |-> <<>>, kb |-> <<>>]
+\* projection of a Kripke object normalised for comparison (label lists as sets, transitions as a set)
+NormK(j) == [S |-> j.S, S0 |-> j.S0, R |-> {<<p[1], p[2]>> : p \in ToSet(j.R)}, L |-> [i \in 1..Len(j.L) |-> ToSet(j.L[i])], attrs |-> j.attrs]
+Quote(a) == "'" \o a \o "'"        \* the harness projects labels with repr(): 'p' 
 \* clauses about the caller's objects, common to all ops
 ObjectsIntact(e, s) ==
-  IF e.proj.ks # s.p0.ks THEN "violation:kripke-modified"
+  IF [i \in 1..Len(e.proj.ks) |-> NormK(e.proj.ks[i])] # s.kb THEN "violation:kripke-modified"
   ELSE IF e.proj.fs # s.p0.fs THEN "violation:formula-modified"
   ELSE "ok"
 Judge(e, s) ==
-  IF e.op = "init" THEN [v |-> "ok", s |-> [pk |-> e.ks, pf |-> e.fs, res |-> <<>>, memo |-> <<>>, p0 |-> e.proj]]
+  IF e.op = "init" THEN [v |-> "ok", s |-> [pk |-> [i \in 1..Len(e.ks) |-> MkK(e.ks[i])], pf |-> e.fs, res |-> <<>>, memo |-> <<>>, p0 |-> e.proj,
+                                            kb |-> [i \in 1..Len(e.proj.ks) |-> NormK(e.proj.ks[i])]]]
+  ELSE IF e.op \in {"editlabel", "editedge"} THEN
+    \* the caller's own edit: the structure (spec value and expected projection) changes exactly as requested
+    LET K == s.pk[e.k]
+        K2 == IF e.op = "editlabel" THEN [K EXCEPT !.L[e.s] = IF e.add THEN @ \cup {e.a} ELSE @ \ {e.a}]
+              ELSE [K EXCEPT !.R = @ \cup {<<e.s, e.d>>}]
+        b == s.kb[e.k]
+        b2 == IF e.op = "editlabel" THEN [b EXCEPT !.L[e.s + 1] = IF e.add THEN @ \cup {Quote(e.a)} ELSE @ \ {Quote(e.a)}]
+              ELSE [b EXCEPT !.R = @ \cup {<<e.s, e.d>>}]
+        s2 == [s EXCEPT !.pk[e.k] = K2, !.kb[e.k] = b2, !.memo = [key \in {x \in DOMAIN s.memo : x[1] # e.k} |-> s.memo[key]]]
+        v == IF Has(e, "err") THEN "MACHINERY:edit failed " \o e.err
+             ELSE IF ObjectsIntact(e, s2) # "ok" THEN "MACHINERY:edit not reflected in the projection"
+             ELSE IF ResOf(e) # s.res THEN "violation:results-changed"
+             ELSE "ok"
+    IN [v |-> v, s |-> s2]
   ELSE IF e.op = "call" THEN
-    LET K == MkK(s.pk[e.k])
+    LET K == s.pk[e.k]
         f == s.pf[e.j].f
         key == <<e.k, e.j, e.fair>>
         okshape == Has(e.out, "ret") /\ e.out.isset /\ e.out.foreign = 0
@@ -75,7 +93,7 @@ TNext == /\ l <= Len(TraceLog)
                /\ broken' = IF skip THEN TRUE ELSE (bad \/ j.v = "skip")
          /\ l' = l + 1
          /\ UNCHANGED vars
-TSpec == TInit /\ Init /\ [][TNext]_<<l, fails, st, broken, res, fairmemo, hist>>
+TSpec == TInit /\ Init /\ [][TNext]_<<l, fails, st, broken, ks, res, fairmemo, hist>>
 Done == (l = Len(TraceLog) + 1) => JsonSerialize(IOEnv.OUT_FILE, [n |-> Len(TraceLog), fails |-> fails])
 TPost == TLCGet("stats").diameter = Len(TraceLog) + 1
 =======================================================================
